@@ -74,6 +74,7 @@ pub struct HalfConnection {
     sync_timeout_base_ms: u64,
 
     flush_alloc: isize,
+    flush_alloc_frac: f64,
     flush_id: u32,
 
     sync_reply: bool,
@@ -102,6 +103,7 @@ impl HalfConnection {
             sync_timeout_base_ms: 0,
 
             flush_alloc: 0,
+            flush_alloc_frac: 0.0,
             flush_id: 0,
 
             sync_reply: false,
@@ -203,7 +205,10 @@ impl HalfConnection {
             let rtt_s = self.send_rate_comp.rtt_s();
 
             let delta_time = (now - time_last_flushed).as_secs_f64();
-            let new_bytes = (send_rate * delta_time).round() as isize;
+            // Carry the fractional byte over to the next step so that rounding never adds credit
+            let new_bytes_exact = send_rate * delta_time + self.flush_alloc_frac;
+            let new_bytes = new_bytes_exact.floor() as isize;
+            self.flush_alloc_frac = new_bytes_exact - new_bytes_exact.floor();
             let alloc_max = (send_rate * rtt_s.unwrap_or(0.0)).round() as isize;
 
             self.flush_alloc = self.flush_alloc.saturating_add(new_bytes).min(alloc_max);
